@@ -1,5 +1,9 @@
-/* C17: the C client library exactly as clockbound.h declares it, under a virtual clock.
+/* C17 (and C05 C06 C14): the C client library exactly as clockbound.h declares it, under a virtual clock.
  *   seg <path> real_s real_n mono_s mono_n   ->  K:<open result> N:<now result>
+ *   cba as_s as_n va_s va_n bound drift status real_s real_n mono_s mono_n
+ *        -> ok e_s e_n l_s l_n status | err <kind>      one context for the whole run: the record of
+ *           each case is stored into the segment the context has open (PROTOCOL.md offsets), so
+ *           anything a context remembers from earlier calls shows
  *   siz                                       ->  sizes and offsets of the public structs
  * Built by the check with: gcc cdriver.c -I<repo>/clock-bound-ffi/include -L<target> -lclockbound -rdynamic
  * This program defines clock_gettime, which takes precedence over libc's for libclockbound.so too. */
@@ -10,6 +14,8 @@
 #include <string.h>
 #include <time.h>
 #include <unistd.h>
+#include <fcntl.h>
+#include <stdint.h>
 #include <sys/syscall.h>
 #include "clockbound.h"
 
@@ -51,12 +57,64 @@ static int status_word_valid(const char *path) {
     return v <= 2;
 }
 
+static clockbound_ctx *cba_ctx = NULL;
+static int cba_fd = -1;
+static uint16_t cba_gen = 2;
+static char cba_path[512];
+
+static void put64(unsigned char *b, long long v) { uint64_t u = (uint64_t)v; memcpy(b, &u, 8); }
+
+static void cba_store(const long long *t) {
+    unsigned char rec[56];
+    memset(rec, 0, sizeof rec);
+    put64(rec, t[0]); put64(rec + 8, t[1]); put64(rec + 16, t[2]); put64(rec + 24, t[3]); put64(rec + 32, t[4]);
+    uint32_t drift = (uint32_t)t[5]; memcpy(rec + 40, &drift, 4);
+    int32_t st = (int32_t)t[6]; memcpy(rec + 48, &st, 4);
+    uint16_t odd = (uint16_t)(cba_gen + 1);
+    if (pwrite(cba_fd, &odd, 2, 14) != 2) abort();
+    if (pwrite(cba_fd, rec, 56, 16) != 56) abort();
+    cba_gen = (cba_gen >= 65000) ? 2 : (uint16_t)(cba_gen + 2);
+    if (pwrite(cba_fd, &cba_gen, 2, 14) != 2) abort();
+}
+
+static void run_cba(const char *line) {
+    long long t[11];
+    if (sscanf(line, "cba %lld %lld %lld %lld %lld %lld %lld %lld %lld %lld %lld", t, t + 1, t + 2, t + 3, t + 4, t + 5, t + 6, t + 7, t + 8, t + 9, t + 10) != 11) {
+        printf("bad-line\n");
+        return;
+    }
+    if (!cba_ctx) {
+        const char *dir = getenv("VERIF_SCRATCH");
+        snprintf(cba_path, sizeof cba_path, "%s/cdriver-segment-%d", dir ? dir : "/dev/shm", (int)getpid());
+        cba_fd = open(cba_path, O_RDWR | O_CREAT | O_TRUNC, 0644);
+        if (cba_fd < 0) { printf("cannot-create-segment\n"); return; }
+        unsigned char hdr[72];
+        memset(hdr, 0, sizeof hdr);
+        uint32_t m0 = 0x414D5A4E, m1 = 0x43420200, size = 72; uint16_t ver = 1, gen = 2;
+        memcpy(hdr, &m0, 4); memcpy(hdr + 4, &m1, 4); memcpy(hdr + 8, &size, 4); memcpy(hdr + 12, &ver, 2); memcpy(hdr + 14, &gen, 2);
+        if (pwrite(cba_fd, hdr, 72, 0) != 72) abort();
+        clockbound_err err; memset(&err, 0, sizeof err);
+        cba_ctx = clockbound_open(cba_path, &err);
+        if (!cba_ctx) { printf("cannot-open-segment:"); print_err(&err); printf("\n"); return; }
+    }
+    cba_store(t);
+    v_real.tv_sec = t[7]; v_real.tv_nsec = t[8]; v_mono.tv_sec = t[9]; v_mono.tv_nsec = t[10];
+    clockbound_now_result res; memset(&res, 0, sizeof res);
+    vclock_on = 1;
+    const clockbound_err *e = clockbound_now(cba_ctx, &res);
+    vclock_on = 0;
+    if (e) printf("err %s\n", kind_name(e->kind));
+    else printf("ok %lld %lld %lld %lld %d\n", (long long)res.earliest.tv_sec, (long long)res.earliest.tv_nsec,
+                (long long)res.latest.tv_sec, (long long)res.latest.tv_nsec, (int)res.clock_status);
+}
+
 int main(void) {
     char line[4096];
     while (fgets(line, sizeof line, stdin)) {
         char tag[16], path[2048];
         long long rs, rn, ms, mn;
         if (sscanf(line, "%15s", tag) != 1) continue;
+        if (strcmp(tag, "cba") == 0) { run_cba(line); fflush(stdout); continue; }
         if (strcmp(tag, "siz") == 0) {
             printf("now_result %zu %zu %zu %zu err %zu %zu %zu %zu status %d %d %d kinds %d %d %d %d %d\n",
                    sizeof(clockbound_now_result), offsetof(clockbound_now_result, earliest), offsetof(clockbound_now_result, latest),
@@ -86,5 +144,6 @@ int main(void) {
         clockbound_close(ctx);
         fflush(stdout);
     }
+    if (cba_ctx) { clockbound_close(cba_ctx); close(cba_fd); unlink(cba_path); }
     return 0;
 }
